@@ -288,6 +288,8 @@ def run_impl(inp):
             attrs = {'atomname': nm, 'element': el, 'PTM_atom': ptm}
             if rep != '-':
                 attrs['replace'] = {'atomname': rep}
+                if rep == 'QQ':
+                    attrs['replace']['tag'] = 5        # a requested change that introduces an attribute the atom does not have yet
             mod.add_node(k, **attrs)
         for u, v in edges:
             mod.add_edge(u, v)
@@ -331,7 +333,10 @@ def run_impl(inp):
         nm = nd.get('atomname')
         final.append({'key': k, 'name': None if nm is None else NAME.get(nm, 99), 'labels': [MOD_ID[m.graph['name']] for m in nd.get('modifications', [])]})
     warnings = sum(1 for r in handler.records if 'Could not identify the modifications' in str(r.msg))
-    return {'groups': groups, 'runs': runs, 'final': final, 'warnings': warnings}
+    # every attribute change a modification requests for an atom it covers is carried out: the atom renamed QQ also got its tag
+    unreplaced = [k for k in mol.nodes if mol.nodes[k].get('atomname') == 'QQ' and mol.nodes[k].get('tag') != 5]
+    return {'groups': groups, 'runs': runs, 'final': final, 'warnings': warnings,
+            'replace_problem': ('atom(s) %r were renamed QQ by the modification AMIDE_RN, whose replace entry also sets tag=5, but carry no such tag' % unreplaced) if unreplaced else None}
 
 
 # ---------------------------------------------------------------- emission
@@ -384,6 +389,10 @@ def emit(inp, out):
         'None' if r['identified'] is None else '(Some %s)' % listlit(r['identified'], lambda im: '(%s, %s)' % (zlit(im[0]), pairs_lit(im[1])))))
     final = listlit(out['final'], lambda a: '{| f_key := %s; f_name := %s; f_labels := %s |}' % (zlit(a['key']), optlit(a['name'], zlit), listlit(a['labels'], zlit)))
     return 'CFix %s %s %s %s %s %s %s' % (listlit(inp['mods'], mod_lit), atoms, pairs_lit(inp['bonds']), groups_lit(out['groups']), runs, final, natlit(out['warnings']))
+
+
+def py_prop(inp, out):
+    return out.get('replace_problem') if isinstance(out, dict) else None
 
 
 def nontrivial(inp, out):
